@@ -318,18 +318,24 @@ PPL::Polyhedron::relation_with(const Congruence& cg) const {
       && Poly_Con_Relation::is_included()
       && Poly_Con_Relation::is_disjoint();
   }
-  // Build the equality corresponding to the congruence (ignoring the modulus).
+  // Build the expression of the congruence (ignoring the modulus).
   Linear_Expression expr(cg.expression());
-  const Constraint c(expr == 0);
 
   // The polyhedron is non-empty so that there exists a point.
-  // For an arbitrary generator point, compute the scalar product with
-  // the equality.
+  // For an arbitrary generator point, compute the value of the expression.
+  // Note: the scalar product is scaled by the divisor of the point,
+  // hence the expression and the modulus are scaled by the same factor.
   PPL_DIRTY_TEMP_COEFFICIENT(sp_point);
+  PPL_DIRTY_TEMP_COEFFICIENT(modulus);
+  modulus = cg.modulus();
   for (Generator_System::const_iterator gs_i = gen_sys.begin(),
          gs_end = gen_sys.end(); gs_i != gs_end; ++gs_i) {
     if (gs_i->is_point()) {
-      Scalar_Products::assign(sp_point, c, *gs_i);
+      // sp_point = divisor * (value of `expr' at the point).
+      Scalar_Products::homogeneous_assign(sp_point, expr, *gs_i);
+      sp_point += expr.inhomogeneous_term() * gs_i->divisor();
+      expr *= gs_i->divisor();
+      modulus *= gs_i->divisor();
       expr -= sp_point;
       break;
     }
@@ -342,7 +348,6 @@ PPL::Polyhedron::relation_with(const Congruence& cg) const {
   // corresponding to the hyperplanes to determine the result.
 
   // Compute the distance from the point to an hyperplane.
-  const Coefficient& modulus = cg.modulus();
   PPL_DIRTY_TEMP_COEFFICIENT(signed_distance);
   signed_distance = sp_point % modulus;
   if (signed_distance == 0) {
@@ -361,6 +366,10 @@ PPL::Polyhedron::relation_with(const Congruence& cg) const {
   PPL_ASSERT(!first_rels.implies(Poly_Con_Relation::saturates())
              && !first_rels.implies(Poly_Con_Relation::is_disjoint()));
   if (first_rels.implies(Poly_Con_Relation::strictly_intersects())) {
+    return Poly_Con_Relation::strictly_intersects();
+  }
+  // The polyhedron may still touch the first hyperplane.
+  if (!relation_with(expr == 0).implies(Poly_Con_Relation::is_disjoint())) {
     return Poly_Con_Relation::strictly_intersects();
   }
 
@@ -382,6 +391,10 @@ PPL::Polyhedron::relation_with(const Congruence& cg) const {
   }
 
   PPL_ASSERT(second_rels == Poly_Con_Relation::is_included());
+  // The polyhedron may still touch the second hyperplane.
+  if (!relation_with(expr == 0).implies(Poly_Con_Relation::is_disjoint())) {
+    return Poly_Con_Relation::strictly_intersects();
+  }
   return Poly_Con_Relation::is_disjoint();
 }
 
